@@ -22,16 +22,21 @@ def main(argv):
         i = argv.index("--tier")
         tier = argv[i + 1]
         del argv[i:i + 2]
+    repo = "/repo"
+    if "--repo" in argv:            # a scratch clone/worktree of /repo: lets a campaign run next to other work
+        i = argv.index("--repo")
+        repo = argv[i + 1]
+        del argv[i:i + 2]
     allp = "--all-props" in argv
     argv = [a for a in argv if a != "--all-props"]
     names = argv or sorted(d for d in os.listdir(SEEDED) if os.path.exists(os.path.join(SEEDED, d, "patch.diff")))
-    assert sh("git -C /repo status --porcelain").stdout.strip() == "", "/repo not clean"
+    assert sh("git -C %s status --porcelain" % repo).stdout.strip() == "", "/repo not clean"
     summary = {}
     for name in names:
         d = os.path.join(SEEDED, name)
         meta = json.load(open(os.path.join(d, "meta.json"))) if os.path.exists(os.path.join(d, "meta.json")) else {}
         props = ALL if allp else meta.get("check_properties", [name[:3]])
-        r = sh("git -C /repo apply %s" % os.path.join(d, "patch.diff"))
+        r = sh("git -C %s apply %s" % (repo, os.path.join(d, "patch.diff")))
         if r.returncode:
             print(name, "patch does not apply:", r.stderr.strip())
             summary[name] = "patch-does-not-apply"
@@ -41,17 +46,18 @@ def main(argv):
             for p in props:
                 t0 = time.time()
                 c = sh("./check %s --tier %s" % (p, tier), cwd=HERE,
-                       env=dict(os.environ, PYVC_EVIDENCE_DIR=os.path.join(HERE, ".scratch", "seeded-evidence", name)))
+                       env=dict(os.environ, PYVC_REPO=repo, PYVC_EVIDENCE_DIR=os.path.join(HERE, ".scratch", "seeded-evidence", name),
+                                PYVC_REPLAY_DIR=os.path.join(HERE, ".scratch", "seeded-replay", name)))
                 lines = [l for l in c.stdout.splitlines() if l.startswith(("VIOLATION", "KNOWN-FINDING", "  REFUTED", "  UNDECIDED"))]
                 res[p] = dict(exit=c.returncode, lines=lines[:12], wall_s=round(time.time() - t0, 1))
                 print(name, p, "exit", c.returncode, "|", "; ".join(l.strip() for l in lines[:3])[:300], flush=True)
         finally:
-            sh("git -C /repo checkout -- .")
+            sh("git -C %s checkout -- ." % repo)
         caught = [p for p, v in res.items() if v["exit"] == 1 and any(l.startswith("VIOLATION") for l in v["lines"])]
-        json.dump(dict(seed=name, tier=tier, results=res, caught_by=caught), open(os.path.join(d, "result_%s.json" % tier), "w"),
+        json.dump(dict(seed=name, tier=tier, results=res, caught_by=caught), open(os.path.join(d, "result_%s%s.json" % (tier, "_allprops" if allp else "")), "w"),
                   indent=1)
         summary[name] = caught
-    assert sh("git -C /repo status --porcelain").stdout.strip() == "", "/repo not restored"
+    assert sh("git -C %s status --porcelain" % repo).stdout.strip() == "", "/repo not restored"
     print(json.dumps(summary, indent=1))
 
 
